@@ -5,6 +5,7 @@
 package c03
 
 import (
+	"encoding/json"
 	"crypto/tls"
 	"fmt"
 	"io"
@@ -50,7 +51,8 @@ func init() {
 			}
 			return []fw.ChildSpec{{Name: "relay", Mode: "relay", Shards: 6, Timeout: 10 * time.Minute}}
 		},
-		Run: run,
+		Run:    run,
+		Replay: replay,
 	})
 }
 
@@ -455,4 +457,29 @@ func interleavingOf(got, a, b []byte) bool {
 		frontier = next
 	}
 	return true
+}
+
+
+func replay(c *fw.Ctx, raw json.RawMessage) {
+	var w struct {
+		Session *Session `json:"session"`
+	}
+	if err := json.Unmarshal(raw, &w); err != nil || w.Session == nil {
+		fmt.Println("replay: cannot decode session:", err)
+		return
+	}
+	hmods.Quiet(c.OutDir + "/caddyhome")
+	cert, err := tlsutil.NewCert("verif.test")
+	if err != nil {
+		fmt.Println("replay:", err)
+		return
+	}
+	if err := caddy.Load([]byte(tlsutil.CaddyConfig(cert, nil)), true); err != nil {
+		fmt.Println("replay:", err)
+		return
+	}
+	canary := oracle.StartCanary()
+	defer canary.Stop()
+	runSession(c, &world{cert: cert, dir: c.OutDir}, canary, w.Session)
+	_ = caddy.Stop()
 }
